@@ -40,14 +40,15 @@ import (
 )
 
 type checker struct {
-	r      *rep.R
-	keys   []*key
-	by     map[string]*key
-	ver    map[string]*ct.SignatureVerifier // one per key; built by NewSignatureVerifier where the policy (with opt-in) allows, else a struct literal
-	certs  map[string][]byte
-	hmu    sync.Mutex
-	honest map[string][]byte
-	perAPI sync.Map // api -> *[2]atomic.Int64 {cases, cases the reference accepts}
+	r       *rep.R
+	keys    []*key
+	by      map[string]*key
+	ver     map[string]*ct.SignatureVerifier // one per key; built by NewSignatureVerifier where the policy (with opt-in) allows, else a struct literal
+	certs   map[string][]byte
+	hmu     sync.Mutex
+	honest  map[string][]byte
+	sampled sync.Map
+	perAPI  sync.Map // api -> *[2]atomic.Int64 {cases, cases the reference accepts}
 }
 
 // layer names the library layer an entry point belongs to; violation signatures
@@ -162,8 +163,11 @@ func (c *checker) judge(api, family string, k *key, h, s uint8, data, sig []byte
 		c.r.Violation(layer(api)+": valid-rejected mut="+coarse(family),
 			fmt.Sprintf("%s returned %q but the reference accepts: key=%s codes=(%d,%d) %s signed=%s sig=%s", api, lerr, k.name, h, s, note, rep.Hex(data), rep.Hex(sig)), desc())
 	default:
-		if stage == stAccept && c.r.WantSample() {
-			c.r.Sample(desc())
+		// written-out examples: the first accepted and the first primitive-rejected case of each layer
+		if (stage == stAccept || stage == stPrimitive) && family != "codes" {
+			if _, dup := c.sampled.LoadOrStore(layer(api)+stage, true); !dup {
+				c.r.Sample(desc())
+			}
 		}
 	}
 }
@@ -399,7 +403,7 @@ func (o *sctObj) clone() *sctObj {
 func (o *sctObj) toLib() (ct.SignedCertificateTimestamp, ct.LogEntry) {
 	sct := ct.SignedCertificateTimestamp{SCTVersion: ct.Version(o.in.Version), LogID: ct.LogID{KeyID: o.logID}, Timestamp: o.in.Timestamp,
 		Extensions: ct.CTExtensions(o.in.Ext),
-		Signature: ct.DigitallySigned{Algorithm: tls.SignatureAndHashAlgorithm{Hash: tls.HashAlgorithm(o.h), Signature: tls.SignatureAlgorithm(o.s)}, Signature: o.sig}}
+		Signature:  ct.DigitallySigned{Algorithm: tls.SignatureAndHashAlgorithm{Hash: tls.HashAlgorithm(o.h), Signature: tls.SignatureAlgorithm(o.s)}, Signature: o.sig}}
 	te := &ct.TimestampedEntry{Timestamp: o.leafTS, EntryType: ct.LogEntryType(o.in.EntryType), Extensions: ct.CTExtensions(o.leafExt)}
 	switch o.in.EntryType {
 	case 0:
@@ -489,21 +493,40 @@ type sctMut struct {
 	f            func(o *sctObj)
 }
 
-func bitMuts(family string, nbits int, f func(o *sctObj, bit int)) []sctMut {
-	var out []sctMut
-	for i := 0; i < nbits; i++ {
-		i := i
-		out = append(out, sctMut{family, fmt.Sprintf("%s bit %d", family, i), func(o *sctObj) { f(o, i) }})
+// bitsOf lists the bit positions to flip in an n-bit field: all of them, or (sparse) only the first and the last.
+func bitsOf(n int, sparse bool) []int {
+	if sparse && n > 2 {
+		return []int{0, n - 1}
+	}
+	out := make([]int, n)
+	for i := range out {
+		out[i] = i
 	}
 	return out
 }
+
+// detail levels of a mutation list
+const (
+	dSparse  = 0 // first and last bit of every field + every structural mutation
+	dFields  = 1 // every bit of every signed / unsigned field and algorithm code
+	dSigBits = 2 // dFields + every bit of the signature value
+)
 
 func flipU64(v *uint64, bit int) { *v ^= 1 << uint(63-bit) }
 
 // sctMuts lists every single-field mutation and single-bit flip of an SCT object.
 // signedOnly restricts to mutations of signed fields and algorithm codes (used for pairs).
-func sctMuts(o *sctObj, withSigBits bool) []sctMut {
+func sctMuts(o *sctObj, detail int) []sctMut {
 	var m []sctMut
+	withSigBits := detail >= dSigBits
+	bitMuts := func(family string, nbits int, f func(o *sctObj, bit int)) []sctMut {
+		var out []sctMut
+		for _, i := range bitsOf(nbits, detail == dSparse) {
+			i := i
+			out = append(out, sctMut{family, fmt.Sprintf("%s bit %d", family, i), func(o *sctObj) { f(o, i) }})
+		}
+		return out
+	}
 	m = append(m, bitMuts("sct_version", 8, func(o *sctObj, b int) { o.in.Version ^= 0x80 >> uint(b) })...)
 	m = append(m, bitMuts("timestamp", 64, func(o *sctObj, b int) { flipU64(&o.in.Timestamp, b) })...)
 	m = append(m, sctMut{"timestamp", "timestamp+1", func(o *sctObj) { o.in.Timestamp++ }}, sctMut{"timestamp", "timestamp-1", func(o *sctObj) { o.in.Timestamp-- }},
@@ -572,10 +595,11 @@ type sthMut struct {
 	f            func(o *sthObj)
 }
 
-func sthMuts(o *sthObj, withSigBits bool) []sthMut {
+func sthMuts(o *sthObj, detail int) []sthMut {
 	var m []sthMut
+	withSigBits := detail >= dSigBits
 	bm := func(family string, n int, f func(o *sthObj, b int)) {
-		for i := 0; i < n; i++ {
+		for _, i := range bitsOf(n, detail == dSparse) {
 			i := i
 			m = append(m, sthMut{family, fmt.Sprintf("%s bit %d", family, i), func(o *sthObj) { f(o, i) }})
 		}
@@ -634,9 +658,13 @@ func (c *checker) objects() {
 		k := k
 		for h := uint8(1); h <= 6; h++ {
 			h := h
-			// all bits of the signature value: every key under SHA-256, the two compliant reference keys under every hash; thorough: everything
-			// (DSA also under SHA-1, the one common hash that is not longer than its 160-bit subgroup)
-			sigBits := th || h == 4 || k.name == "p256" || k.name == "rsa2048" || (k.code == 2 && h == 2)
+			// bit level (every bit of every field and of the signature value): every key under SHA-256, the two compliant
+			// reference keys under every hash, DSA also under SHA-1 (the common hash not longer than its 160-bit subgroup);
+			// the other (key, hash) combinations: honest + structural mutations + first/last bit of every field. thorough: bit level everywhere
+			sigBits := dSparse
+			if th || h == 4 || k.name == "p256" || k.name == "rsa2048" || (k.code == 2 && h == 2) {
+				sigBits = dSigBits
+			}
 			for _, precert := range []bool{false, true} {
 				precert := precert
 				jobs = append(jobs, func() {
@@ -714,10 +742,8 @@ func (c *checker) objects() {
 							base := c.baseSCT(k, 4, precert, cl, el)
 							shape := fmt.Sprintf("entry %d bytes, extensions %d bytes", cl, el)
 							c.judgeSCT(api, "honest", k, base, "honest object, "+shape)
-							for _, mu := range sctMuts(base, false) {
-								if strings.Contains(mu.name, " bit ") && !strings.HasSuffix(mu.name, " bit 0") {
-									continue // bit-level coverage is done on the 16-byte shape; here first bit of each field + all structural mutations
-								}
+							// bit-level coverage is done on the 16-byte shape; here first/last bit of each field + all structural mutations
+							for _, mu := range sctMuts(base, dSparse) {
 								o := base.clone()
 								mu.f(o)
 								c.judgeSCT(api, mu.family, k, o, mu.name+", "+shape)
@@ -744,11 +770,11 @@ func (c *checker) objects() {
 	})
 	// thorough: every pair of single mutations on the reference key
 	if th {
-		for _, kn := range []string{"p256"} {
+		for _, kn := range []string{"p256", "rsa2048", "p384"} {
 			k := c.by[kn]
 			for _, precert := range []bool{false, true} {
 				base := c.baseSCT(k, 4, precert, 16, 16)
-				ms := sctMuts(base, false)
+				ms := sctMuts(base, dFields)
 				api := "VerifySCTSignature(x509)"
 				if precert {
 					api = "VerifySCTSignature(precert)"
@@ -767,7 +793,7 @@ func (c *checker) objects() {
 				}
 			}
 			base := c.baseSTH(k, 4)
-			ms := sthMuts(base, false)
+			ms := sthMuts(base, dFields)
 			for i := range ms {
 				i := i
 				jobs = append(jobs, func() {
@@ -851,7 +877,10 @@ func derMalformations(sig []byte, order *big.Int) []derCase {
 	add("r-nonminimal-leading-00", seq(rawInt(append([]byte{0}, rC...)), sT))
 	add("s-nonminimal-leading-00", seq(rT, rawInt(append([]byte{0}, sC...))))
 	add("r-nonminimal-leading-0000", seq(rawInt(append([]byte{0, 0}, rC...)), sT))
-	add("r-negated-nonminimal-leading-ff", func() []byte { c, _, _ := derTLV(intTLV(neg(r)), 0x02); return seq(rawInt(append([]byte{0xff}, c...)), sT) }())
+	add("r-negated-nonminimal-leading-ff", func() []byte {
+		c, _, _ := derTLV(intTLV(neg(r)), 0x02)
+		return seq(rawInt(append([]byte{0xff}, c...)), sT)
+	}())
 	if rC[0] == 0 && len(rC) > 1 {
 		add("r-sign-octet-dropped", seq(rawInt(rC[1:]), sT)) // reads as a negative number
 	}
@@ -985,6 +1014,45 @@ func (c *checker) derPhase() {
 			}
 		})
 	}
+	// a serialized DigitallySigned (RFC 5246 4.7): every bit of its 4 header octets, truncation, extension
+	for _, k := range c.keys {
+		if k.code == 0 {
+			continue
+		}
+		k := k
+		jobs = append(jobs, func() {
+			msg := pat(16, 0x41)
+			h := uint8(4)
+			if k.code == 2 {
+				h = 2
+			}
+			blob := encDS(h, k.code, c.honestSig(k, h, msg))
+			cases := []derCase{{"exact", blob}, {"last-octet-dropped", blob[:len(blob)-1]}, {"octet-appended", append(clone(blob), 0)},
+				{"header-only", blob[:4]}, {"empty", []byte{}}, {"length-octets-dropped", append(clone(blob[:2]), blob[4:]...)}}
+			for i := 0; i < 32; i++ {
+				cases = append(cases, derCase{"header-bit-flip", flip(blob, i)})
+			}
+			for _, dc := range cases {
+				dc := dc
+				stage := "digitally-signed-malformed"
+				bh, bs, bsig, ok := decDS(dc.b)
+				if ok {
+					stage = refVerify(k.pub, bh, bs, msg, bsig)
+				}
+				c.judge("tls.Unmarshal+VerifySignature", "digitally-signed:"+dc.name, k, bh, bs, msg, dc.b, stage, func() error {
+					var ds tls.DigitallySigned
+					rest, err := tls.Unmarshal(dc.b, &ds)
+					if err != nil {
+						return err
+					}
+					if len(rest) != 0 {
+						return fmt.Errorf("trailing data after DigitallySigned")
+					}
+					return tls.VerifySignature(k.pub, msg, ds)
+				}, dc.name)
+			}
+		})
+	}
 	done := enum.ParFor(len(jobs), c.r.Expired, func(i int) {
 		if pan, msg, stack := enum.Catch(jobs[i]); pan {
 			c.r.Violation("harness-panic", msg+"\n"+stack, i)
@@ -1113,11 +1181,6 @@ func (c *checker) logLists() {
 				}
 			}
 			c.judgeLogList("key", &key{name: "nil"}, js, sig, ops, "nil public key")
-			if th || !k.slow {
-				for i := 0; i < 8*len(js); i++ {
-					c.judgeLogList("json-bit", k, flip(js, i), sig, nil, fmt.Sprintf("JSON bit %d flipped", i))
-				}
-			}
 			for i := 0; i < 8*len(sig); i++ {
 				c.judgeLogList("signature_value", k, js, flip(sig, i), ops, fmt.Sprintf("signature bit %d flipped", i))
 			}
@@ -1139,11 +1202,30 @@ func (c *checker) logLists() {
 			}
 		})
 	}
-	enum.ParFor(len(jobs), nil, func(i int) {
+	// every bit of the JSON: the two compliant reference keys (thorough: every RSA / ECDSA key)
+	for _, k := range c.keys {
+		if (k.code != 1 && k.code != 3) || !(th || k.name == "p256" || k.name == "rsa2048") {
+			continue
+		}
+		k := k
+		sig := c.honestSig(k, 4, js)
+		for lo := 0; lo < len(js); lo += 64 {
+			lo := lo
+			jobs = append(jobs, func() {
+				for i := 8 * lo; i < 8*(lo+64) && i < 8*len(js); i++ {
+					c.judgeLogList("json-bit", k, flip(js, i), sig, nil, fmt.Sprintf("JSON bit %d flipped", i))
+				}
+			})
+		}
+	}
+	done := enum.ParFor(len(jobs), c.r.Expired, func(i int) {
 		if pan, msg, stack := enum.Catch(jobs[i]); pan {
 			c.r.Violation("harness-panic", msg+"\n"+stack, i)
 		}
 	})
+	if !done {
+		c.r.Capped("deadline reached in the log-list enumeration")
+	}
 }
 
 // ---------------------------------------------------------------------------
@@ -1247,7 +1329,7 @@ func (c *checker) certPaths() {
 			}
 			sct := ct.SignedCertificateTimestamp{SCTVersion: ct.Version(p.in.Version), LogID: ct.LogID{KeyID: sha256.Sum256(k.spki)}, Timestamp: p.in.Timestamp,
 				Extensions: ct.CTExtensions(clone(p.in.Ext)),
-				Signature: ct.DigitallySigned{Algorithm: tls.SignatureAndHashAlgorithm{Hash: tls.HashAlgorithm(p.h), Signature: tls.SignatureAlgorithm(p.s)}, Signature: p.sig}}
+				Signature:  ct.DigitallySigned{Algorithm: tls.SignatureAndHashAlgorithm{Hash: tls.HashAlgorithm(p.h), Signature: tls.SignatureAlgorithm(p.s)}, Signature: p.sig}}
 			e := e
 			c.judge(e.api, p.family, k, p.h, p.s, data, p.sig, stage, func() error { return e.call(k, p.chain, &sct) }, p.note)
 		}
@@ -1443,8 +1525,8 @@ func TestCheck(t *testing.T) {
 	r.Rule("stored keys {RSA-1024/2048/2048b/3072, P-224/256/256b/384/521, DSA-1024/160, Ed25519} x: (1) NewSignatureVerifier / NewLogInfo / VerifySCT construction for every key, synthetic RSA moduli of 512..4096 bits and 8 non-key values x opt-in {false,true}; " +
 		"(2) all 256x256 (hash, signature) codes x honest signatures made under each of the 6 defined hashes, directly and through a serialized DigitallySigned; " +
 		"(3) honest SCT(x509), SCT(precert), STH objects for every key x 6 hashes, every single-bit flip of every signed fixed-width field and of 16-byte entry / extensions payloads, every +-1 / shorten / extend / empty / boundary-shift field mutation, unsigned fields (log id, leaf timestamp), algorithm codes, every bit of the signature value; the reverse direction (the log signed any single-bit variant of the canonical bytes, a truncated/extended variant, the digest, the other structure); length-prefix boundary shapes 1..70000 x 0..65535; " +
-		"(4) ~150 DER malformation families + every bit flip of ECDSA/DSA values, RSA numeric edge values; (5) every signer x verifier key pair; (6) signed log list: every JSON bit, every signature bit, byte-level edits, wrong key, wrong hash; " +
-		"(7) ctutil.VerifySCT / VerifySCTWithVerifier / LogInfo over stored real certificates (x509 and precert chains): every certificate bit, signature bit, timestamp bit, wrong certificate / issuer / key. thorough adds: all keys x all hashes at bit level, all pairs of single mutations on the P-256 objects, pairs of bit flips in the DER header. " +
+		"(4) ~150 DER malformations (trailing bytes outside / inside the SEQUENCE, every proper prefix, r or s zero / negated / +-order / swapped / non-minimal / unsigned, non-minimal, indefinite and huge lengths, wrong tags) + every bit flip of ECDSA/DSA values, RSA numeric edge values, every header bit / truncation / extension of a serialized DigitallySigned; (5) every signer x verifier key pair; (6) signed log list: every JSON bit, every signature bit, byte-level edits, wrong key, wrong hash; " +
+		"(7) ctutil.VerifySCT / VerifySCTWithVerifier / LogInfo over stored real certificates (x509 and precert chains): every certificate bit, signature bit, timestamp bit, wrong certificate / issuer / key. thorough adds: all keys x all hashes at bit level, all pairs of single field/code mutations on the P-256, RSA-2048 and P-384 objects, pairs of bit flips in the DER header. " +
 		"distinct_nontrivial = distinct cases in which the reference got as far as the cryptographic primitive (defined hash, signature code matching the key type, well-formed DER) plus all construction cases")
 	r.Assume(
 		"trusted base: Go standard library crypto (ecdsa.Verify, dsa.Verify, rsa.VerifyPKCS1v15, the hash functions) and math/big; the reference never calls the repository",
